@@ -150,6 +150,27 @@ func (c *svScn) step(st string) {
 			err := appSend(s, m, fn)
 			return []interface{}{"r", err}
 		})
+	case "surveyshared":
+		// the application sends one message twice (it took a second reference for that): each Send takes one
+		// reference and nothing else - the message is still the application's, unchanged, for the second Send
+		i := ci(arg(1))
+		fn := c.sock.SendMsg
+		if i > 0 {
+			fn = c.ctxs[i].SendMsg
+		}
+		c.nsv++
+		tag := fmt.Sprintf("s%d", c.nsv)
+		m := appNew(s, 16)
+		m.Body = append(m.Body, tag...)
+		m.Clone()
+		for k := 0; k < 2; k++ {
+			s.Call(s.Thread(), "survey", c.cname(i), []interface{}{"tag", tag}, func() []interface{} {
+				return []interface{}{"r", appSend(s, m, fn)}
+			})
+			s.Q()
+			c.snap()
+		}
+		return
 	case "recv":
 		i := ci(arg(1))
 		fn := c.sock.RecvMsg
@@ -331,6 +352,8 @@ func svScripted() []svCfg {
 	sec := time.Second
 	d := svCtxOpt{SurvExp: sec, QLen: 4}
 	return []svCfg{
+		// one message sent as two surveys (the application holds two references): both go out unchanged
+		{Opts: []svCtxOpt{{SurvExp: time.Second, QLen: 4}, {SurvExp: time.Second, QLen: 4}}, SQ: 2, Steps: []string{"conn", "conn", "surveyshared c0", "resp p1 cur c0", "recv c0", "surveyshared c1", "resp p2 cur c1", "recv c1"}},
 		// two respondents answer; stale, foreign and malformed responses; expiry at exactly 1 s
 		{Opts: []svCtxOpt{d, d}, SQ: 2, Steps: []string{"conn", "conn", "recv c0", "survey c0", "resp p1 cur c0", "resp p2 cur c0", "recv c0", "recv c0", "resp p1 nohi c0", "resp p2 short c0", "resp p1 unissued c0", "survey c1", "resp p1 cur c1", "resp p2 cur c0", "recv c1", "recv c0", "recv c0", "adv 999.999ms", "adv 1us", "recv c0", "resp p1 cur c0", "recv c0"}},
 		// responses with an empty payload
